@@ -229,6 +229,9 @@ def update_base(t):
         for n, v in t[2]:
             fields.setdefault(n, v)
         t = t[1]
+    # a field assigned its own current value (`x.f = match o { Some(v) => v, None => x.f }`) is not changed
+    for n in [n for n, v in fields.items() if v == ("field", t, n)]:
+        del fields[n]
     return t, fields
 
 
